@@ -84,6 +84,8 @@ func checkC16(p *core.Program, r *core.Report) {
 	uncheckedAsserts(p, r, fns, "R2", c16AssertAllowed, "definition-migration code (input is untrusted JSON)")
 	c16R3(p, r, fns)
 	r.Count("const_offset_string_sites", c04R5(p, r, fns, "R4", c16SliceAllowed))
+	r.Rule("R8", "wildcard agreement between the producer of template paths (inspect.TemplatePaths: \".*\" for maps, \"[*]\" for slices) and their consumer jsonpath.visit (object arm and array arm both accept \"*\")")
+	c16R8(p, r)
 	r.Rule("R7", "every constant index or slice bound on a slice in these packages is within a length established on every path or listed")
 	r.Count("const_index_sites", constIndexRule(p, r, fns, "R7", c16IndexAllowed, false))
 	r.Rule("R6", "in the generic-JSON migrations, every write into a map that comes from a discarded-ok assertion on decoded JSON (directly or through an accessor such as GetLanguageTranslation) is controlled by a nil / ok test")
@@ -730,4 +732,88 @@ func constKey(v ssa.Value) string {
 		return fmt.Sprintf("%q", s)
 	}
 	return "k"
+}
+
+// ---------------------------------------------------------------------------------------------- R8 wildcard agreement
+
+// inspect.TemplatePaths emits ".*" for evaluated map fields and "[*]" for evaluated slices (that is what the per-version
+// template catalogs in specdata/templates.json contain); jsonpath.visit, which applies template rewrites along those paths,
+// must accept the "*" selector in its object arm and in its array arm.
+func c16R8(p *core.Program, r *core.Report) {
+	visit := p.Func("utils/jsonpath", "visit")
+	tp := p.Func("flows/inspect", "TemplatePaths")
+	if visit == nil || tp == nil {
+		r.Errorf("jsonpath.visit / inspect.TemplatePaths not found")
+		return
+	}
+	// producer side: which wildcard forms are emitted
+	emits := map[string]bool{}
+	core.EachInstr(tp, true, func(_ *ssa.Function, in ssa.Instruction) {
+		if bo, ok := in.(*ssa.BinOp); ok && bo.Op == token.ADD {
+			if s, ok := core.ConstString(bo.Y); ok && (s == ".*" || s == "[*]") {
+				emits[s] = true
+			}
+		}
+	})
+	r.Check(emits[".*"] && emits["[*]"], "R8", "inspect.TemplatePaths/emits-wildcards", p.Pos(tp.Pos()), "emits \".*\" for maps and \"[*]\" for slices", fmt.Sprintf("expected both wildcard forms to be produced, found %v", emits))
+	for _, arm := range []struct{ label, want string }{{"object", "map[string]any"}, {"array", "[]any"}} {
+		var okFlag ssa.Value
+		core.EachInstr(visit, false, func(_ *ssa.Function, in ssa.Instruction) {
+			ta, ok := in.(*ssa.TypeAssert)
+			if !ok || !ta.CommaOk || core.ShortType(ta.AssertedType) != arm.want {
+				return
+			}
+			for _, ref := range *ta.Referrers() {
+				if ex, ok := ref.(*ssa.Extract); ok && ex.Index == 1 {
+					okFlag = ex
+				}
+			}
+		})
+		if okFlag == nil {
+			r.Bad("R8", "jsonpath.visit/"+arm.label+"-arm", p.Pos(visit.Pos()), "no "+arm.want+" arm found in visit")
+			continue
+		}
+		// blocks dominated by the true edge of the flag
+		found := false
+		var scan func(fn *ssa.Function, region func(*ssa.BasicBlock) bool, depth int)
+		scan = func(fn *ssa.Function, region func(*ssa.BasicBlock) bool, depth int) {
+			if depth > 3 {
+				return
+			}
+			for _, b := range fn.Blocks {
+				if !region(b) {
+					continue
+				}
+				for _, in := range b.Instrs {
+					switch x := in.(type) {
+					case *ssa.BinOp:
+						if x.Op == token.EQL || x.Op == token.NEQ {
+							if s, ok := core.ConstString(x.X); ok && s == "*" {
+								found = true
+							}
+							if s, ok := core.ConstString(x.Y); ok && s == "*" {
+								found = true
+							}
+						}
+					case *ssa.MakeClosure:
+						scan(x.Fn.(*ssa.Function), func(*ssa.BasicBlock) bool { return true }, depth+1)
+					case *ssa.Call:
+						if f := x.Call.StaticCallee(); f != nil && f != visit && core.RelPkg(core.FuncPkgPath(f)) == "utils/jsonpath" {
+							scan(f, func(*ssa.BasicBlock) bool { return true }, depth+1)
+						}
+					}
+				}
+			}
+		}
+		scan(visit, func(b *ssa.BasicBlock) bool {
+			for _, ce := range core.ControllingConds(b) {
+				if ce.Cond == okFlag && ce.Taken {
+					return true
+				}
+			}
+			return false
+		}, 0)
+		r.Check(found, "R8", "jsonpath.visit/"+arm.label+"-arm-accepts-wildcard", p.Pos(visit.Pos()), "the "+arm.label+" arm compares the selector with \"*\"",
+			"the "+arm.label+" arm of jsonpath.visit never tests the selector against \"*\": catalog paths with a wildcard over an "+arm.label+" (e.g. call_webhook .headers.*) are silently skipped by template-rewriting migrations")
+	}
 }
